@@ -121,6 +121,12 @@ CLAIMED = {
         text="Batches of up to 24 (quick) / 64 (thorough) real client processes over 1-5 distinct modules - outputs from 0 bytes to several hundred KiB with a per-module marker on every line, globals, heap-heavy loops, failed asserts, out-of-range accesses, non-zero exit statuses, external calls routed through co-processes - are submitted with 0-20 ms arrival offsets. Each client's stdout bytes, exit status and error text must equal the standalone run of its module, no foreign marker may appear, the daemon must survive, and every fourth batch runs against a TSan-instrumented daemon whose log must be free of data-race reports.",
         note="The schedule space is sampled, not enumerated: only arrival offsets are controlled (yield-injection hook H4 was not built). A failure must reproduce in 2 of 3 re-runs.",
         design="3/C17"),
+    "C18": dict(
+        category="exploration",
+        technique="stateful generation: Hypothesis-generated sequences of client behaviours played by a raw-socket client against a private ASan daemon (hook H3); invariant after every step (daemon alive, PING answered within 2 s, clean sanitizer log) and a differential oracle (stand-alone nano_vm) for every well-formed session",
+        text="Sequences of 2-30 behaviours from: well-formed exec (short and ~1.5 MiB output), ping, status, header only, payload truncated at 0/1/7/8/half/len-1 bytes, garbage, wrong version, unknown type, length beyond VMD_MAX_PAYLOAD, zero-length exec, a non-module payload, eleven hostile modules (well-checksummed images whose entry function is overwritten with stack underflow, out-of-range local / call / string / global / jump, invalid opcode, truncated operand; function table and entry index out of range; bad checksum), disconnect before / during / after output, and stalled clients (up to 8 kept open across later steps). After every step the daemon must be alive and answer PING; every well-formed session must get the stand-alone result byte for byte; a hostile module that the stand-alone VM refuses must not get a success reply and its session must end; the daemon log must be free of sanitizer reports.",
+        note="Interleavings are the scheduler's; only the order of the steps and which sessions stay open are generated. 'The offending session ends with an error reply or a closed connection' is read as: no success reply (EXIT_CODE 0 without ERROR) for a module that nano_vm refuses. Endless-loop modules are not submitted (the daemon has no execution budget; the property does not promise one).",
+        design="3/C18"),
 }
 
 NOT_YET = {
